@@ -34,6 +34,10 @@ func runOne(t *testing.T, prop, tier string, seed uint64, ch *Choice, params map
 	}
 	runActive.Store(time.Now().UnixNano())
 	defer runActive.Store(0)
+	// util.Scatter sizes its worker pool from GOMAXPROCS, so the process-wide setting is an input of the
+	// run: it is pinned here and drawn from the choice source by the runners that vary it.
+	prevProcs := runtime.GOMAXPROCS(4)
+	defer runtime.GOMAXPROCS(prevProcs)
 	body := func(t *testing.T) {
 		defer func() {
 			if r := recover(); r != nil {
@@ -223,6 +227,9 @@ func TestWorker(t *testing.T) {
 				dumpDiff(a, b)
 			}
 			out.Hashes[strconv.FormatUint(seed, 10)] = ha
+			if d := os.Getenv("VERIF_TRACE_DIR"); d != "" {
+				_ = os.WriteFile(d+"/"+strconv.FormatUint(seed, 10)+".trace", []byte(strings.Join(a.Trace, "\n")), 0o644)
+			}
 			out.Runs += 2
 		}
 		write()
